@@ -13,7 +13,7 @@ FAMILY = {
     "C05": {"InBox", "RefInBox", "RefNotWorse", "RefValue", "RefPointInBox", "UnexpectedEvaluation"},
     "C06": {"SnapCount", "SnapLinks", "SnapOrder", "SnapZ", "SnapHolder", "SnapDelta", "SnapImage", "SnapEnds",
             "SnapIter", "ZLogged", "YLogged", "Image", "SameHolder"},
-    "C16": {"FailContained", "Count", "BestValue", "BestIsTrial", "BestPresent", "SnapCount", "SnapLinks", "SnapOrder",
+    "C16": {"ArgMax", "Point", "Inside", "Accuracy", "StopLate", "StopEarly", "DgiCount", "FailContained", "Count", "BestValue", "BestIsTrial", "BestPresent", "SnapCount", "SnapLinks", "SnapOrder",
             "SnapZ", "SnapHolder", "SnapDelta", "SnapImage", "SnapEnds", "SnapIter", "SolveReturnsResults"},
     "C20": {"OnGrid"},
 }
